@@ -316,6 +316,9 @@ def rule_ambient_py(ctx, px):
                 ctx.ob(R, m.rel, construct, True, "under embed_auditing_info", s.node.lineno)
                 continue
             chk = CLASSIFIED.get(key)
+            if chk is None and ".<locals>." in s.where:
+                # a lambda turned into a named nested function: classified under the enclosing function
+                chk = CLASSIFIED.get((m.rel, s.where.split(".<locals>.")[0], s.what))
             if chk is None:
                 # generic structural justifications that hold for any site: the value can only reach a log record, or only selects
                 # code by interpreter version
